@@ -17,7 +17,7 @@ def main():
     args = sys.argv[1:]
     allchecks = "--all-checks" in args
     names = [a for a in args if not a.startswith("--")] or sorted(os.listdir("/verif/seeded"))
-    vseed = "/tmp/vseed"
+    vseed = os.environ.get("VSEED", "/tmp/vseed")
     if not os.path.isdir(vseed):
         sh(f"git clone -q /verif {vseed}")
     sh("git fetch -q origin && git reset -q --hard origin/main", cwd=vseed)
